@@ -225,6 +225,8 @@ class FakeNet:
         self.on_client_close = None
         self.reader_factory = None   # (loop, connection index) -> reader object
         self._saved = None
+        self.max_conns = 64         # connections accepted before the console gives up on a client that keeps resetting them
+        self.storm = False
         self.close_latency = None   # None: wait_closed() returns at once; a number: it takes that long
         self.frozen = False         # set by harnesses after shutdown: any activity is recorded as late
         self.late = []
@@ -260,6 +262,11 @@ class FakeNet:
         if self.frozen:
             self.late.append(("attempt", t))
         act = self.on_connect(self, n) if self.on_connect else ("accept", 0)
+        if len(self.conns) >= self.max_conns:
+            # a reconnection storm (a client that resets every connection at once): the simulated console stops accepting, so
+            # that the run ends and the harness's own obligations (recovered? probe delivered?) give the verdict
+            self.storm = True
+            act = ("refuse",)
         if act[0] == "refuse":
             self.attempts.append((t, "refuse"))
             raise (act[1] if len(act) > 1 else ConnectionRefusedError("refused"))
